@@ -1,0 +1,30 @@
+//go:build verif
+
+package core
+
+// VerifPipeIDsInUse returns how many pipe IDs are currently allocated in
+// this process.  Verification hook; not part of normal builds.
+func VerifPipeIDsInUse() int {
+	pipeIDs.lock.Lock()
+	defer pipeIDs.lock.Unlock()
+	return len(pipeIDs.used)
+}
+
+// VerifPipeIDInUse reports whether the given pipe ID is allocated.
+func VerifPipeIDInUse(id uint32) bool {
+	pipeIDs.lock.Lock()
+	defer pipeIDs.lock.Unlock()
+	_, ok := pipeIDs.used[id]
+	return ok
+}
+
+// VerifPipesListed returns the number of pipes the socket still lists.
+func VerifPipesListed(s interface{}) int {
+	sock, ok := s.(*socket)
+	if !ok {
+		return -1
+	}
+	sock.pipes.lock.Lock()
+	defer sock.pipes.lock.Unlock()
+	return len(sock.pipes.pipes)
+}
